@@ -138,9 +138,8 @@ CheckTmsi(e) ==
   Crash(e) \cup
   IF e.panic THEN {} ELSE
   IF Len(e.octs) # 7 THEN {<<"incomplete", 0>>} ELSE
-  Bad(e.text = McTmsiText(e.octs), "text", Len(e.text))
-  \cup Bad(e.type = McTmsiTypeName, "type-name", Len(e.type))
-  \cup Bad(~e.err, "error", 0)
+  (IF e.err THEN Bad(e.octs[1] % 8 # 4, "error", e.octs[1])          \* an object whose type of identity is 5G-S-TMSI (100) always has one
+   ELSE Bad(e.text = McTmsiText(e.octs), "text", Len(e.text)) \cup Bad(e.type = McTmsiTypeName, "type-name", Len(e.type)))
   \cup (IF e.how = "set" /\ e.set \in 0..1023 /\ e.ptr \in 0..63
         THEN Bad(SubSeq(e.octs, 2, 7) = McTmsiOctets(e.set, e.ptr, e.tmsi), "identifier-octets", e.order) ELSE {})
 
